@@ -79,7 +79,7 @@ def cases(tier, seed):
     variants = list(itertools.product(
         ("grid", "cases", "mix", "mix2"), (False, True, 3),
         ("none", "const", "farmer", "farmer-override", "const0", "farmer0",
-         "farmer-extra", "farmer-shared")))
+         "farmer-extra", "farmer-shared", "farmer-clash")))
     for n in range(1, nmax + 1):
         reqs = [("batchsize", s) for s in range(1, n + 2)]
         reqs += [("num_batches", k) for k in range(1, n + 3)]
@@ -214,7 +214,11 @@ def check_case(case):
         extra_args, defaults = ["x"], {"x": 1}
     if farmer:
         resources = {"r": 0 if const == "farmer0" else 9}
-    f = xfn.make_fn(argnames + sorted(constants) + sorted(resources)
+    if const == "farmer-clash":
+        # (the farmer holds a resource under the name of one of its
+        # constants: the constant is what a direct run passes)
+        resources = {"r": 9, "k": 3}
+    f = xfn.make_fn(argnames + sorted(set(constants) | set(resources))
                     + extra_args, kind="num", name="f07", defaults=defaults)
 
     # ---- reference: what a direct run passes ------------------------------
